@@ -588,12 +588,21 @@ class PE:
     def _simple(self, frame, i, state):
         op = i.op
         regs = frame.regs
+        if op == "sdiv" and ("__pdiff__" + (i.res or "")) in regs:
+            frame.regs[i.res] = regs["__pdiff__" + i.res]
+            return
         if op in ("add", "sub", "mul", "and", "or", "xor", "shl", "lshr", "ashr", "sdiv", "udiv", "srem", "urem"):
             a, b = self.val(frame, i.ops[0], state), self.val(frame, i.ops[1], state)
             if a[0] == "ptr" or b[0] == "ptr":
                 v = TOP
                 if op == "sub" and a[0] == "ptr" and b[0] == "ptr" and a[1] == b[1]:
                     v = self._ptrdiff(a, b)
+                    # clang divides the byte difference by the element size (sdiv exact): our difference is already
+                    # in elements, so the division is skipped by marking the value
+                    from .cfg import cfg_of
+                    us = cfg_of(frame.fn).users(i.res)
+                    if v != TOP and len(us) == 1 and us[0].op == "sdiv" and us[0].ops[1].kind == "int":
+                        frame.regs["__pdiff__" + us[0].res] = v
             else:
                 v = mk(op, i.type, a, b)
         elif op == "icmp":
